@@ -7,67 +7,6 @@ namespace YashModel.Syntax
 
 /-! ## End of input directly after the last token -/
 
-theorem lexWordUnit_eof (ctx : Ctx) (d : Delim) (k : Nat) : lexWordUnit (k + 1) ctx d [] = .none [] := by
-  simp [lexWordUnit, skipLC]
-
-/-- the outermost list of word units at the end of input (inner lists end at `}` / `"`) -/
-theorem wordUnits_eof (ctx : Ctx) (d : Delim) : ∀ (w : List WordUnit) (n : Nat), WordUnits.Ok ctx d w [] →
-    (printWord w).length + 4 ≤ n → lexWordUnits n ctx d (printWord w) = some (w, []) := by
-  intro w
-  induction w with
-  | nil =>
-    intro n _ hf
-    obtain ⟨k, rfl⟩ : ∃ k, n = k + 2 := ⟨n - 2, by simp [printWord] at hf; omega⟩
-    simp [printWord, lexWordUnits, lexWordUnit_eof]
-  | cons u us ih =>
-    intro n h hf
-    obtain ⟨k, rfl⟩ : ∃ k, n = k + 1 := ⟨n - 1, by omega⟩
-    simp only [WordUnits.Ok] at h
-    rw [printWord_cons] at hf ⊢
-    simp only [List.length_append] at hf
-    obtain ⟨y, tl, ey, _, _⟩ := printWordUnit_head ctx d u _ h.1
-    have hpos : 1 ≤ (printWordUnit u).length := by simp [ey]
-    have h1 := (lex_all k).2.2.2.1 ctx d u (printWord us ++ []) h.1 (by omega)
-    have h2 := ih k h.2 (by omega)
-    simp only [List.append_nil] at h1
-    simp only [lexWordUnits, h1, h2]
-
-theorem word_eof (d : Delim) (w : Word) (h : WordUnits.Ok .word d w []) :
-    lexWord d (printWord w) = some (w, []) := by
-  unfold lexWord
-  exact wordUnits_eof .word d w _ h (by omega)
-
-
-theorem lexToken_word_eof (w : Word) (hw : TokWordOk w []) (sp : Bool) :
-    lexToken ((if sp then [' '] else []) ++ printWord w) = some (⟨w, .word (isKeywordWord w)⟩, []) := by
-  have hne := printWord_ne_nil _ _ w _ hw.ok hw.nonempty
-  obtain ⟨y, t, e, hy, hk⟩ := printWord_head_ok .word .token w _ hw.ok hne
-  have hk' := hk []
-  obtain ⟨hop, hbl⟩ := firstOk_token y hy
-  have hyc : y ≠ '#' := by
-    intro e'; apply hw.noComment; simp [e, e']
-  have hwl := word_eof .token w hw.ok
-  have hlen : 2 ≤ ((if sp then [' '] else []) ++ y :: t).length + 1 := by
-    cases sp <;> simp
-  have hin : (if sp then [' '] else []) ++ printWord w = (if sp then [' '] else []) ++ y :: t := by simp [e]
-  have hsb : skipBlanks ((if sp then [' '] else []) ++ y :: t).length ((if sp then [' '] else []) ++ y :: t) = y :: t := by
-    cases sp with
-    | false => simpa using skipBlanks_stop y t (by simpa using hk') hbl _
-    | true =>
-      have := skipBlanks_pre true y t (by simpa using hk') hbl (([' '] ++ y :: t).length) (by simp)
-      simpa using this
-  have hwl' : lexWord .token (y :: t) = some (w, []) := by rw [← hwl, e]
-  have hwe : w.isEmpty = false := by
-    cases w with
-    | nil => exact absurd rfl hw.nonempty
-    | cons _ _ => rfl
-  unfold lexToken
-  simp only []
-  rw [hin, hsb, skipComment_id y _ (by simpa using hk') hyc,
-    lexOperator_none y _ (by simpa using hk') hop, hwl']
-  simp [parseTildeFront_id w hw.noTilde, tokenId, hwe, nextIsAngle, skipLC, isKeywordWord]
-  cases hkw : ((wordLiteral w).map isKeyword).getD false <;> simp
-
 theorem lexToken_eof : lexToken [] = some (⟨[], .endOfInput⟩, []) := by rfl
 
 theorem parseRedir_word_eof (w : Word) (hw : TokWordOk w []) (sp : Bool) :
@@ -220,7 +159,7 @@ theorem loop_pieces_eof :
         simpa [Piece.print, Builder.push] using loop_arrayAssign n ws [] h1 sp b k h0 h2 h3 h4
     | cons q qs =>
       have hn : NextOk (afterPiece (q :: qs) []) :=
-        ⟨⟨' ', printPieces (q :: qs) ++ [], by simp [afterPiece], ⟨by decide, by decide⟩⟩, by
+        ⟨Or.inr ⟨' ', printPieces (q :: qs) ++ [], by simp [afterPiece], ⟨by decide, by decide⟩⟩, by
           simp [afterPiece, nextIsAngle, skipLC_cons_ne]⟩
       cases p with
       | assign n v =>
